@@ -18,7 +18,8 @@ RULE_TEXT = ("C07-K buffer discipline of process, decided on the linear normal f
              "read' = read_end - proc, proc' = 0) whenever proc > 0 before fullness is judged, and input is discarded "
              "(read' = 0 without copy) only when proc = 0 and the buffer is full. C07-A: every future is awaited in place, "
              "no hand-written poll machinery (a Pending can only suspend, never change results)."
-             " K8: nothing in process writes into the command buffer except Adapter::read and the compaction. K5/K6 accept lazy compaction: pending bytes may stay in place while the full-buffer test on read_end fails, both offsets return to 0 when nothing is pending.")
+             " K8: nothing in process writes into the command buffer except Adapter::read and the compaction. K5/K6 accept lazy compaction: pending bytes may stay in place while the full-buffer test on read_end fails, both offsets return to 0 when nothing is pending."
+             " C07-C06R: run consumes a faulty terminated message (one report, resumption behind the raw newline) - rule C06-R.")
 
 PROCESS = "microscpi::interface::Interface::process"
 ADAPTER = "microscpi::interface::Adapter::"
